@@ -259,6 +259,18 @@ Fixpoint run_news (sh : shape) (hf : bool) (o : oracle) (s : st) (k : nat) : lis
       (ev, out) :: run_news sh hf o s1 k'
   end.
 
+(* ---------- specification side: which config a product must be built from ---------- *)
+
+(* the config the registry must hand to the constructor when the counters of user-code
+   invocations and allocations stand at [s]: default (or zero) overlaid by the fill *)
+Definition expected_base (sh : shape) (o : oracle) (s : st) : cfgv :=
+  match sh_def sh with DefVal => o_dflt o (s_def s) | _ => vzero end.
+Definition expected_arg (sh : shape) (hf : bool) (o : oracle) (s : st) : carg :=
+  match sh_cfg sh with
+  | NoCfg => ANone
+  | k => mk_arg k (s_alloc s) (if hf then o_fill o (s_fill s) (expected_base sh o s) else expected_base sh o s)
+  end.
+
 (* ---------- cases and observations ---------- *)
 
 Inductive req := ReqNew | ReqFactory (we : bool).
